@@ -76,6 +76,14 @@ func (g *apiGen) field() string {
 	v := g.v()
 	r := g.c.rng
 	u := func(max uint64) string { return fmt.Sprint(g.edge(max)) }
+	// a sub-width field: mostly values of the field's own width, now and then any value its Go type can hold (the
+	// constructor takes the whole container; what it does with the excess must still leave the message framed)
+	uw := func(valid, container uint64) string {
+		if r.Intn(6) == 0 {
+			return fmt.Sprint(g.edge(container))
+		}
+		return fmt.Sprint(g.edge(valid))
+	}
 	switch r.Intn(40) {
 	case 0:
 		g.add("%s=NewInPortField(%s)", v, u(0xffffffff))
@@ -88,9 +96,9 @@ func (g *apiGen) field() string {
 	case 4:
 		g.add("%s=NewVlanIdField(%s,%s)", v, u(0xfff), g.maybe(u(0x1fff)))
 	case 5:
-		g.add("%s=NewMplsLabelField(%s)", v, u(0xfffff))
+		g.add("%s=NewMplsLabelField(%s)", v, uw(0xfffff, 0xffffffff))
 	case 6:
-		g.add("%s=NewMplsBosField(%s)", v, u(1))
+		g.add("%s=NewMplsBosField(%s)", v, uw(1, 0xff))
 	case 7:
 		g.add("%s=NewIpv4SrcField(%s,%s)", v, g.bytes(4), g.maybe(g.bytes(4)))
 	case 8:
@@ -104,7 +112,7 @@ func (g *apiGen) field() string {
 	case 12:
 		g.add("%s=NewIpProtoField(%s)", v, u(0xff))
 	case 13:
-		g.add("%s=NewIpDscpField(%s)", v, u(0x3f))
+		g.add("%s=NewIpDscpField(%s)", v, uw(0x3f, 0xff))
 	case 14:
 		g.add("%s=NewTunnelIdField(%s)", v, u(^uint64(0)))
 	case 15:
@@ -316,6 +324,26 @@ func (g *apiGen) action(depth int) string {
 		}
 		if r.Intn(2) == 0 {
 			g.add("$%s.SetRangeProtoMax(%s)", v, u(0xffff))
+		}
+		// a range corrected afterwards (the same setter called again), possibly after the size was asked for in between:
+		// the last value is the one supplied, and the action's size is that of the ranges present
+		if r.Intn(3) == 0 {
+			if r.Intn(2) == 0 {
+				g.add("zz%s=$%s.Len()", v, v)
+			}
+			switch r.Intn(4) {
+			case 0:
+				g.add("$%s.SetRangeIPv4Min(%s)", v, g.bytes(4))
+				g.add("$%s.SetRangeIPv4Min(%s)", v, g.bytes(4))
+			case 1:
+				g.add("$%s.SetRangeIPv6Max(%s)", v, g.bytes(16))
+				g.add("$%s.SetRangeIPv6Max(%s)", v, g.bytes(16))
+			case 2:
+				g.add("$%s.SetRangeProtoMin(%s)", v, u(0xffff))
+				g.add("$%s.SetRangeProtoMin(%s)", v, u(0xffff))
+			default:
+				g.add("$%s.SetRangeProtoMax(%s)", v, u(0xffff))
+			}
 		}
 	case 17:
 		f := g.regField()
